@@ -467,5 +467,27 @@ def family_J(n):
         ("J/option_lone_surrogate", b64("{\"action\": \"compile\", \"code\": {\"\": \"x=1\"}, \"options\": {\"opt\\udc00%d\": true}}" % n)),
         ("J/code_lone_surrogate", b64("{\"action\": \"compile\", \"code\": {\"\": \"from stationeers_pytrapic.symbols import *\\ndb.Setting = nothing\\ud800here%d\\n\"}, \"options\": {}}" % n)),
         ("J/module_name_lone_surrogate", b64("{\"action\": \"compile\", \"code\": {\"\": \"from stationeers_pytrapic.symbols import *\\nfrom library import zz\\nzz.f()\\n\", \"l\\udfff%d\": \"x = = 1\"}, \"options\": {}}" % n)),
+        # non-empty lines whose base64 payload is empty or blank (b64decode drops characters outside the alphabet)
+        ("J/b64_only_punctuation", "!!!!"),
+        ("J/b64_only_padding", "===="),
+        ("J/b64_of_space", "IA=="),
+        ("J/b64_of_newline", "Cg=="),
+        ("J/b64_of_spaces", "ICAg"),
+        ("J/b64_of_tab_newline", "CQo="),
+        ("J/b64_of_empty_object_ws", b64("  {}  \n")),
+        # action names a daemon might grow one day (each must still get exactly one reply line)
+        ("J/action_ping", request_line(ok_src, action="ping")),
+        ("J/action_version", request_line(ok_src, action="version")),
+        ("J/action_format", request_line(ok_src, action="format")),
+        ("J/action_exit", request_line(ok_src, action="exit")),
+        ("J/action_EXIT", request_line(ok_src, action="EXIT")),
+        ("J/action_shutdown", request_line(ok_src, action="shutdown")),
+        ("J/action_reset", request_line(ok_src, action="reset")),
+        ("J/action_clear_cache", request_line(ok_src, action="clear_cache")),
+        ("J/action_compile_upper", request_line(ok_src, action="Compile")),
+        ("J/action_stationpedia", request_line(ok_src, action="stationpedia")),
+        ("J/action_hover", request_line(ok_src, {}, {"lineno": 1, "column": 3}, action="hover")),
+        ("J/action_complete", request_line(ok_src, {}, {"lineno": 1, "column": 3}, action="complete")),
+        ("J/action_empty", request_line(ok_src, action="")),
         ("J/dup_keys", b64("{\"action\": \"nope\", \"action\": \"compile\", \"code\": {\"\": \"" + "db.Setting = %d" % n + "\"}}")),
     ]
